@@ -32,6 +32,9 @@ static char sym_lower() { int c = nondet_int(); ASSUME(c >= 'a' && c <= 'z'); re
 static int sym_range(int lo, int hi) { int v = nondet_int(); ASSUME(v >= lo && v <= hi); return v; }
 static std::string one_char(char c) { std::string s; s.__push(c); return s; }
 static std::string two_char(char a, char b) { std::string s; s.__push(a); s.__push(b); return s; }
+// token vectors are filled at constant indices and their size is set afterwards (no push_back at a symbolic size: a store through a
+// pointer with symbolic offset into a large enclosing object is what CBMC handles worst)
+#define TOKV_SET(vec, i, tok) new (&(vec).u.d[i]) Token(tok)
 static bool is_constraint_kind(int k) { return k == Token::NV_ID || k == Token::ID || k == Token::INT; }
 static bool is_template_kind(int k) { return k == Token::PROG_TEMP || k == Token::ARGS_TEMP || k == Token::ID_TEMP || k == Token::INT_TEMP || k == Token::VALUE_TEMP; }
 
@@ -96,8 +99,9 @@ extern "C" std::optional<MacroDetector::Response> stub_detect(MacroDetector *sel
     ASSUME(loc >= 0 && loc < MA_CT && len >= 1 && len <= MA_CT && loc + len <= n - 1);
     r.loc = loc; r.len = len;
     for (int p = 0; p < MA_RS; p++) if (p < self->md.rule.n) {
-      std::vector<Token> seq; int m = sym_range(0, MA_NMATCH);
-      for (int q = 0; q < MA_NMATCH; q++) if (q < m) seq.push_back(sym_plain_token());
+      std::vector<Token> seq;
+      for (int q = 0; q < MA_NMATCH; q++) TOKV_SET(seq, q, sym_plain_token());
+      seq.n = sym_range(0, MA_NMATCH);
       r.matched.push_back(seq);
     }
     resp.location = loc; resp.length = len; resp.matched = r.matched;
@@ -121,13 +125,14 @@ int CEX_tag[MA_NLOG], CEX_has[MA_NLOG], CEX_loc[MA_NLOG], CEX_len[MA_NLOG], CEX_
 static void sym_definition(MacroDefinition &d, int tag) {
   d.priority = nondet_int();
   // rule "A <ID>"-like: position 0 carries the identity tag of the definition in its line number
-  d.rule.push_back(Token(Token::ID, std::string("A"), std::string("m"), tag));
-  for (int r = 1; r < MA_RS; r++) d.rule.push_back(Token(Token::ID_TEMP, std::string("<ID>"), std::string("m"), sym_range(0, 99)));
-  d.content_constraint_token_indices.push_back(0);
-  d.template_token_indices.push_back((unsigned)sym_range(0, MA_RS - 1));   // which rule position $0 refers to
-  int nb = sym_range(0, MA_NBODY);
+  TOKV_SET(d.rule, 0, Token(Token::ID, std::string("A"), std::string("m"), tag));
+  for (int r = 1; r < MA_RS; r++) TOKV_SET(d.rule, r, Token(Token::ID_TEMP, std::string("<ID>"), std::string("m"), sym_range(0, 99)));
+  d.rule.n = MA_RS;
+  d.content_constraint_token_indices.u.d[0] = 0; d.content_constraint_token_indices.n = 1;
+  d.template_token_indices.u.d[0] = (unsigned)sym_range(0, MA_RS - 1); d.template_token_indices.n = 1;   // which rule position $0 refers to
   int line0 = sym_range(0, 9);
-  for (int b = 0; b < MA_NBODY; b++) if (b < nb) d.replacement.push_back(sym_body_token(1, b == 0 ? line0 : sym_range(0, 99)));
+  for (int b = 0; b < MA_NBODY; b++) TOKV_SET(d.replacement, b, sym_body_token(1, b == 0 ? line0 : sym_range(0, 99)));
+  d.replacement.n = sym_range(0, MA_NBODY);
 }
 
 // expected[i] of cur with [loc,loc+len) replaced by R, compared with obs
@@ -159,8 +164,9 @@ static void run_selection(unsigned passes, bool adversarial) {
   }
   // ---- symbolic input: <= MA_NIN tokens, then the single T_EOF
   std::vector<Token> input; int nin = sym_range(0, MA_NIN); CEX_nin = nin;
-  for (int i = 0; i < MA_NIN; i++) if (i < nin) input.push_back(sym_plain_token());
-  input.push_back(Token(Token::T_EOF, std::string(""), std::string("m"), sym_range(0, 99)));
+  { Token eof(Token::T_EOF, std::string(""), std::string("m"), sym_range(0, 99));
+    for (int i = 0; i <= MA_NIN; i++) { Token t = sym_plain_token(); if (i == nin) t = eof; TOKV_SET(input, i, t); }
+    input.n = nin + 1; }
   CEX_passes = (int)passes;
 
   MacroApplicationResult res = Theo::apply_macros(input, defs, passes);
@@ -280,8 +286,9 @@ extern "C" void h_dbg1() {
   std::vector<MacroDefinition> defs;
   for (int i = 0; i < MA_ND; i++) { L.conflict[i] = nondet_bool(); MacroDefinition d; sym_definition(d, i); defs.push_back(d); }
   std::vector<Token> input; int nin = sym_range(0, MA_NIN);
-  for (int i = 0; i < MA_NIN; i++) if (i < nin) input.push_back(sym_plain_token());
-  input.push_back(Token(Token::T_EOF, std::string(""), std::string("m"), sym_range(0, 99)));
+  { Token eof(Token::T_EOF, std::string(""), std::string("m"), sym_range(0, 99));
+    for (int i = 0; i <= MA_NIN; i++) { Token t = sym_plain_token(); if (i == nin) t = eof; TOKV_SET(input, i, t); }
+    input.n = nin + 1; }
   MacroApplicationResult res = Theo::apply_macros(input, defs, 1);
   ASSERT(res.transformed_sequence.n >= 1, "C09: dbg");
   ASSERT(0, "WITNESS: end of h_dbg1 reachable");
